@@ -310,7 +310,7 @@ class QueryHandler:
 
         return answer_set
 
-    def async_remember_query(self, msg: DNSIncoming, now: float) -> None:
+    def async_remember_query(self, msg: DNSIncoming, now: float, again: bool = False) -> None:
         """Note in the question history that the questions of a query were heard at this time.
 
         For a query that is not answered: the copy of a query that was
@@ -323,6 +323,11 @@ class QueryHandler:
         known_answers_by_name: Optional[Dict[str, List[DNSRecord]]] = None
         for question in msg._questions:
             if question.unique or not self._get_answer_strategies(question):
+                continue
+            if again and self.question_history.touch(question, now):
+                # the copy of a query that was answered a moment ago: it may have
+                # been the last packet of a longer query, what is remembered are
+                # the known answers of the whole of it
                 continue
             if known_answers_by_name is None:
                 known_answers_by_name = {}
